@@ -8,7 +8,7 @@ from . import lib
 
 MODULES = {
     "C01": "predfam", "C09": "predfam", "C10": "predfam",
-    "C11": "c11", "C04": "c04",
+    "C11": "c11", "C04": "c04", "C15": "c15", "C12": "c12", "C20": "c20",
 }
 
 
